@@ -490,7 +490,7 @@ fn c17(ctx: &Ctx) -> i32 {
         ctx,
         "C17",
         "exploration",
-        "case = (corpus, output mode, schedule): protobuf corpora (messages with several nested messages/enums/oneofs at two levels) and thrift corpora with many modules (3-file include graphs, namespaces), hostile names that collide after case conversion, constants and services, built R times in FRESH builder processes (fresh hash seeds) with RAYON_NUM_THREADS in {1,2,3,4,6,8,12,16} and other builders running concurrently, in single-file, split and workspace mode. Oracle: the map relative path -> (content hash, length) is identical across all runs of a (corpus, mode). distinct = (corpus, mode, thread count)",
+        "case = (corpus, output mode, schedule): protobuf corpora (messages with several nested messages/enums/oneofs at two levels) and thrift corpora with many modules (3-file include graphs, namespaces), hostile names that collide after case conversion, constants and services, built R times in FRESH builder processes (fresh hash seeds) with RAYON_NUM_THREADS in {1,2,3,4,6,8,12,16} and other builders running concurrently, in single-file, split and workspace mode, and for the thrift corpora (incl. 'sparse' ones: ~90 definitions, 6 services reaching a part of them) also with ignore_unused(true), the Builder default. Oracle: the map relative path -> (content hash, length) is identical across all runs of a (corpus, mode). distinct = (corpus, mode, thread count)",
     );
     report.assume("protobuf corpora are built in single-file and split mode (workspace mode is exercised with the thrift corpora)");
     report.assume("schedule diversity comes from process repetition, thread-count variation, concurrent load and the jitter hook (cfg pilota_verif: 0-2 ms sleep per module task keyed by seed and module path); it is sampled, not enumerated; the hook's order log gives the number of distinct task completion orders actually observed");
@@ -508,12 +508,19 @@ fn c17(ctx: &Ctx) -> i32 {
         let seed = if k < 2 { 0xC17_9000 + k as u64 } else { ctx.seed.wrapping_mul(15485863).wrapping_add(k as u64) };
         corpora.push(make_proto_doc(&root, "c17", &format!("pk{}", k), seed, k % 2 == 0));
     }
-    let modes = ["single", "split", "workspace"];
+    // thrift corpora with many definitions of which the services reach only a part: the
+    // builder's default mode (ignore_unused) starts from the services and emits what they use
+    for k in 0..ctx.scale(2, 4) as usize {
+        let seed = if k < 2 { 0xC17_5000 + k as u64 } else { ctx.seed.wrapping_mul(7919).wrapping_add(k as u64) };
+        corpora.push(make_doc(&root, "c17", &format!("sp{}", k), seed, "sparse", k % 2 == 1));
+    }
+    // "-used" = ignore_unused(true), the Builder's default
+    let modes = ["single", "split", "workspace", "single-used", "split-used"];
     // jobs: (corpus, mode, run)
     let mut jobs = vec![];
     for c in 0..corpora.len() {
         for (m, _) in modes.iter().enumerate() {
-            if corpora[c].proto.is_some() && modes[m] == "workspace" {
+            if corpora[c].proto.is_some() && modes[m] != "single" && modes[m] != "split" {
                 continue;
             }
             for r in 0..runs {
@@ -558,7 +565,7 @@ fn c17(ctx: &Ctx) -> i32 {
                         Err(e) => BuildOut { ok: false, status: format!("{}", e), stderr: String::new() },
                     }
                 } else {
-                    let cfg = Cfg { split: modes[m] == "split", keep: false, change_case: true, ignore_unused: false };
+                    let cfg = Cfg { split: modes[m].starts_with("split"), keep: false, change_case: true, ignore_unused: modes[m].ends_with("-used") };
                     // run_pbuild wipes the parent dir of the output file
                     run_pbuild(&root, &corpora[c], &cfg, &outdir.join("out").join("pgen.rs"), &envs)
                 };
